@@ -389,6 +389,15 @@ Theorem C07_location_roundtrip : forall t off,
 Proof. exact location_roundtrip. Qed.
 Print Assumptions C07_location_roundtrip.
 
+(* in terms of BYTES the rendered line is one more than the number of bytes '\n' among the
+   first off bytes of the text (a newline rune is the byte 10; the bytes of every other rune,
+   valid or not, contain no 10).  The column has no such reading: it counts runes -- that is
+   what the round trip above pins down and what a byte distance gets wrong *)
+Theorem C07_location_line : forall t off,
+  rune_boundary_b t off = true -> fst (location t off) = byte_line t off.
+Proof. exact location_line. Qed.
+Print Assumptions C07_location_line.
+
 (* the hypothesis says no more than it should: such offsets lie in [0,|t|], and 0 and |t| are
    among them *)
 Theorem C07_rune_boundary_bounds : forall t off, rune_boundary_b t off = true -> 0 <= off <= zlen t.
@@ -456,6 +465,7 @@ Example C07_example_location :
   location ex_text_umlaut 57 = (2, 38) /\
   loc_inside_b ex_text_umlaut (2, 38) = true /\
   offset_of ex_text_umlaut (2, 38) = 57 /\
+  byte_line ex_text_umlaut 57 = 2 /\
   byte_col ex_text_umlaut 57 = 42 /\
   loc_inside_b ex_text_umlaut (2, 39) = true /\       (* the newline of line 2 *)
   loc_inside_b ex_text_umlaut (2, 40) = false /\
